@@ -406,6 +406,34 @@ func evalOp(op opcode, s ssort, argSort ssort, p0, p1 int, a []uint64) (uint64, 
 
 func mk(op opcode, s ssort, args ...*term) *term { return mkP(op, s, 0, 0, "", args...) }
 
+// splitConstOffset views a 64-bit term as x + C (mod 2^64), collecting the constants of nested additions and
+// subtractions; it reports false when no constant is involved.
+func splitConstOffset(t *term) (*term, uint64, bool) {
+	var c uint64
+	found := false
+	for depth := 0; depth < 16; depth++ {
+		if t.op == oAdd && t.sort == sBV64 {
+			if t.args[1].isConst() {
+				c += t.args[1].bits
+				t, found = t.args[0], true
+				continue
+			}
+			if t.args[0].isConst() {
+				c += t.args[0].bits
+				t, found = t.args[1], true
+				continue
+			}
+		}
+		if t.op == oSub && t.sort == sBV64 && t.args[1].isConst() {
+			c -= t.args[1].bits
+			t, found = t.args[0], true
+			continue
+		}
+		break
+	}
+	return t, c, found
+}
+
 func iteDepth(t *term) int {
 	d := 0
 	for t.op == oIte {
@@ -472,6 +500,30 @@ func mkP(op opcode, s ssort, p0, p1 int, name string, args ...*term) *term {
 						return tIte(a.args[0], mkP(op, s, p0, p1, name, l...), mkP(op, s, p0, p1, name, r...))
 					}
 				}
+			}
+		}
+	}
+	// signed division and remainder of operands that are non-negative by range are the unsigned ones (which the
+	// rules below can narrow)
+	if (op == oSDiv || op == oSRem) && len(args) == 2 && (s == sBV64 || s == bvSort(32)) {
+		al, _, ok1 := args[0].bvRange()
+		bl, _, ok2 := args[1].bvRange()
+		if ok1 && ok2 && al >= 0 && bl >= 1 {
+			if op == oSDiv {
+				return mkP(oUDiv, s, p0, p1, name, args...)
+			}
+			return mkP(oURem, s, p0, p1, name, args...)
+		}
+	}
+	// (C + x) / k and (C + x) % k with k | C and 0 <= x < k (by range): C/k and x.  This is the shape of
+	// "seconds since an epoch" split into a concrete day and a symbolic second of the day.
+	if (op == oUDiv || op == oURem) && s == sBV64 && len(args) == 2 && args[1].isConst() && args[1].bits != 0 && !args[0].isConst() {
+		if x, c, ok := splitConstOffset(args[0]); ok && c%args[1].bits == 0 {
+			if lo, hi, okr := x.bvRange(); okr && lo >= 0 && uint64(hi) < args[1].bits {
+				if op == oUDiv {
+					return tBV(64, c/args[1].bits)
+				}
+				return x
 			}
 		}
 	}
